@@ -42,8 +42,10 @@ SDLS = [
     type Query { pet: Pet pets: [Pet] tag: Tag @tweak(by: "x") hello(n: Int = 2): String @same named: Named echo(t: Tag): String open(box: Box): String }
     type Subscription { tick: Int }
     """,
-    # bundle 2: default type resolution (_typename), no directive implementation needed on tag
+    # bundle 2: default type resolution (_typename), no directive implementation needed on tag; OVERRIDES the built-in
+    # scalar Int with its own implementation (declared in its SDL)
     """
+    scalar Int
     directive @tweak(by: String = "f") on FIELD_DEFINITION
     directive @same on FIELD_DEFINITION | FIELD
     directive @stamp on INPUT_FIELD_DEFINITION
@@ -146,6 +148,18 @@ def register(i):
     @Resolver("Query.open", schema_name=sn)
     async def open_(p, a, c, info):
         return "b%d:%s" % (i, json.dumps(a.get("box"), sort_keys=True))
+
+    if i == 2:
+        @Scalar("Int", schema_name=sn)
+        class MyInt:
+            def coerce_output(self, v):
+                return int(v) + 1000
+
+            def coerce_input(self, v):
+                return int(v)
+
+            def parse_literal(self, ast):
+                return int(ast.value)
 
     @Directive("stamp", schema_name=sn)
     class Stamp:
